@@ -2,7 +2,7 @@ CFG = {
     "run_modules": ["RunC17", "RunC17Info"],
     "jobs": lambda tier: [J("prod", "c17", script="tools/cli/c17_job.py", needs_repo_bins=["mlar"], timeout=2400,
                             imports="Base Stream Inst Run RunC17 RunC17Info", shard=3)],
-    "rule": "production build of the mlar binary from the working tree. (1) ORACLE pipelines, 14 (quick) / 160 (thorough): each draws 1-6 input files (nesting, "
+    "rule": "production build of the mlar binary from the working tree. (1) ORACLE pipelines, 14 (quick) / 160 (thorough): each draws 1-6 input files (nesting, backslashes in names, paths given as arguments or - every third archive - on standard input with / without a final newline, "
             "spaces, unicode, empty files, sizes {0,1,2,100,999..1001,4095..4097,65536,131071..131073,262161} (thorough also 4 MiB-1..+1) or random, "
             "zeros / text / random content), layers {none, compress, encrypt, both}, level {0,1,5,9,11}, 1-3 recipients of the sample keys; then "
             "create, list, list -vv, cat of every file, extract whole (linear) and one name at a time, to-tar, convert to another layer/key choice "
